@@ -12,6 +12,7 @@ import (
 	"sort"
 	"strings"
 	"testing"
+	"testing/iotest"
 	"time"
 
 	"github.com/ipfs/go-cid"
@@ -135,6 +136,47 @@ func (n *c20Node) close() {
 	}
 }
 
+// c20SourceKind selects how the archive bytes reach RestoreAccountExport (it takes any io.Reader: a file, a pipe, the
+// 4096-byte chunks of the export stream re-assembled by a client...).
+var c20SourceKind int
+
+var c20SourceNames = []string{"one-piece", "4096-byte-chunks", "half-reads", "data-with-EOF", "one-byte-reads"}
+
+type c20ChunkReader struct {
+	data []byte
+	n    int
+}
+
+func (c *c20ChunkReader) Read(p []byte) (int, error) {
+	if len(c.data) == 0 {
+		return 0, io.EOF
+	}
+	k := c.n
+	if k > len(p) {
+		k = len(p)
+	}
+	if k > len(c.data) {
+		k = len(c.data)
+	}
+	copy(p, c.data[:k])
+	c.data = c.data[k:]
+	return k, nil
+}
+
+func c20Source(archive []byte) io.Reader {
+	switch c20SourceKind {
+	case 1:
+		return &c20ChunkReader{data: archive, n: 4096}
+	case 2:
+		return iotest.HalfReader(bytes.NewReader(archive))
+	case 3:
+		return iotest.DataErrReader(bytes.NewReader(archive))
+	case 4:
+		return &c20ChunkReader{data: archive, n: 1}
+	}
+	return bytes.NewReader(archive)
+}
+
 // c20Restore runs RestoreAccountExport with a wall-clock guard; blocked=true means it was still running when the guard
 // fired and was released by cancelling the node's context (an observation, judged by the caller).
 func c20Restore(n *c20Node, archive []byte, guard time.Duration) (err error, blocked bool, pnc interface{}, stack string) {
@@ -142,7 +184,7 @@ func c20Restore(n *c20Node, archive []byte, guard time.Duration) (err error, blo
 	go func() {
 		defer close(done)
 		pnc, stack = verifkit.Try(func() {
-			err = RestoreAccountExport(n.ctx, bytes.NewReader(archive), n.ipfs.API(), n.odb, zap.NewNop())
+			err = RestoreAccountExport(n.ctx, c20Source(archive), n.ipfs.API(), n.odb, zap.NewNop())
 		})
 	}()
 	select {
@@ -162,7 +204,7 @@ func TestVerifC20(t *testing.T) {
 	rep := verifkit.NewReport("C20", "c20-export-restore")
 	defer rep.Finish(t)
 	rep.Rule = "seeded account histories on a real service (contact requests in several states, 0-2 multi-member groups created and used, metadata and 0-8 messages per group, account-group messages; in every other account each open log also gets a second branch - two heads - through the replication path) exported through the export path; the tar is parsed independently " +
-		"(key files, entries/<cid> re-hashed, heads files); restored into a fresh node and compared log by log (entry CIDs, heads, derived state) before anything is written there, then a service is started on it and messages are listed; " +
+		"(key files, entries/<cid> re-hashed, heads files); restored into a fresh node - the archive handed over, account after account, in one piece, in 4096-byte chunks (what the export stream delivers), in half reads, with the last data returned together with EOF, byte by byte - and compared log by log (entry CIDs, heads, derived state) before anything is written there, then a service is started on it and messages are listed; " +
 		"mutated archives (byte flips in entry / heads / key files, dropped and duplicated key files, duplicated and renamed entry files, reordered files, truncation, restore onto a used store). distinct = (account history) and (archive mutation)"
 	rep.Assume("mutations outside the statement's rejection list (heads flips, dropped entry files, truncated tar) are exercised for no-panic; a restore that waits for entries that cannot come is released by cancelling the node and recorded")
 	ctx := context.Background()
@@ -391,7 +433,10 @@ func TestVerifC20(t *testing.T) {
 
 		// ---- restore into a fresh node ------------------------------------------------------------------
 		nB := c20FreshNode(t, mn)
+		c20SourceKind = (ai + 1) % len(c20SourceNames) // the archive reaches the restore in one piece, in chunks, in short reads...
 		rerr, blocked, pnc, stack := c20Restore(nB, archive, 60*time.Second)
+		rep.Count("restores_from_source/"+c20SourceNames[c20SourceKind], 1)
+		c20SourceKind = 0
 		rep.Case(tag + "/restore")
 		if pnc != nil {
 			rep.Violate("C20/restore-panic", fmt.Sprintf("%v", pnc), map[string]interface{}{"account": tag, "stack": c19Trim(stack)})
